@@ -142,7 +142,8 @@ def run(ctx):
         json.dump(plan, f)
     res = ctx.gotest('handshake', 'TestVerif_C05', also=('hs',), timeout=1500)
     finish(ctx, res, 'harness')
-    ctx.require_actions('Deliver', 'AdvInit', 'AdvResp', 'Initiate', 'complete', 'matrix', 'T:Deliver', 'T:complete', 'table:nothing')
+    if not ctx.violations:      # vacuity only matters for a run that reports no disagreement
+        ctx.require_actions('Deliver', 'AdvInit', 'AdvResp', 'Initiate', 'complete', 'matrix', 'T:Deliver', 'T:complete', 'table:nothing')
 
 
 META = {
